@@ -132,19 +132,16 @@ def rule(fn, kind, expr, ordn, guards, contract):
             return thm('C07Sites', 'Kit.C07.growDst_sites', [])
         return thm('C07Imported', 'Kit.C07.cbcHmacSeal_never_panics', need('!(len(nonce) != aes.BlockSize)'))
     if fn == 'crypto/aescbcaead.aesCBCAEAD.Open':
+        base = ['!(len(nonce) != aes.BlockSize)']
         if expr.startswith('ciphertext['):
-            return thm('C07Imported', 'Kit.C07.cbcHmacOpen_never_panics', need('!(len(ciphertext) < aead.tagSize)'))
+            return thm('C07Sites', 'Kit.C07.aeadOpen_sites', need(*base, '!(len(ciphertext) < aead.tagSize)'))
         if expr == 'dst[:dstLen+size]':
-            return thm('C07Sites', 'Kit.C07.growDst_sites', need('cap(dst) >= (dstLen + size)'))
+            return thm('C07Sites', 'Kit.C07.aeadOpen_sites', need(*base, 'cap(dst) >= (dstLen + size)'))
         if kind == 'make':
-            return thm('C07Sites', 'Kit.C07.growDst_sites', need('!(cap(dst) >= (dstLen + size))'))
-        if expr == 'dst[dstLen:]':
-            return thm('C07Sites', 'Kit.C07.growDst_sites', [])
-        if expr == 'cipher.NewCBCDecrypter(block, nonce)':
-            return '.documentedMisuse "cipher.AEAD Open: the nonce must be NonceSize() bytes long (standard-library contract, same as Seal)"'
+            return thm('C07Sites', 'Kit.C07.aeadOpen_sites', need(*base, '!(cap(dst) >= (dstLen + size))'))
         if 'CryptBlocks' in expr:
-            return thm('C07Imported', 'Kit.C07.cbcHmacOpen_never_panics', need('!(len(ciphertext)%aes.BlockSize != 0)'))
-        return thm('C07Imported', 'Kit.C07.cbcHmacOpen_never_panics', need('!(len(ciphertext) < aead.tagSize)'))
+            return thm('C07Sites', 'Kit.C07.aeadOpen_sites', need(*base, '!(len(ciphertext)%aes.BlockSize != 0)'))
+        return thm('C07Sites', 'Kit.C07.aeadOpen_sites', need(*base))
     if fn == 'crypto/aescbcaead.aesCBCAEAD.hmacTag':
         return thm('C07Sites', 'Kit.C07.hmacTag_sites', [])
     # ---------------- enc ----------------
